@@ -288,19 +288,18 @@ def run(ctx):
         if len(p) != len(q) or len(p) != d["datapoints"]:
             ds_bad.append({"why": "predict has the wrong number of entries", "dataset": d})
             continue
-        last = len(p) - 1
+        extrap = set(d.get("extrapolated_idx", []))
         for i, (a, b) in enumerate(zip(p, q)):
-            if d.get("expect_finite_last") and i == last:
-                if not isinstance(a, (int, float)) or not a > 0:
-                    ds_bad.append({"why": "extrapolated vapor pressure above T_c is not a positive finite number", "dataset": d})
-                continue
             if isinstance(a, str) or isinstance(b, str):
                 if a != b:
-                    ds_bad.append({"why": "predict and the direct call disagree on failure (NaN) at entry %d" % i, "dataset": d})
+                    ds_bad.append({"why": "predict and the direct call disagree on failure / NaN policy at entry %d: %r vs %r" % (i, a, b), "dataset": d})
+            elif i in extrap:
+                # documented fallback above the model's critical point: ln p linear in 1/T through (T_c, p_c) and 0.9 T_c
+                if not (a > 0) or not close(a, b, 1e-8):
+                    ds_bad.append({"why": "extrapolated vapor pressure differs from ln p linear in 1/T through the critical point and 0.9 T_c "
+                                          "at entry %d: %r vs %r" % (i, a, b), "dataset": d})
             elif not close(a, b, 1e-12):
                 ds_bad.append({"why": "predict differs from the direct library call (independent unit conversion) at entry %d: %r vs %r" % (i, a, b), "dataset": d})
-        if d.get("expect_nan_last") and not isinstance(p[last], str):
-            ds_bad.append({"why": "vapor pressure above T_c without extrapolation must be NaN", "dataset": d})
         mg = d.get("model_generated")
         if mg:
             vals = list(mg["reldiff"]) + [mg["mard"]] + list(mg["estimator_cost"]) + [c for cs in mg["cost"].values() for c in cs]
@@ -340,11 +339,12 @@ def run(ctx):
         "correspondence_goal_kinds": {"loss": "Loss::apply vs loss_apply", "est": "Estimator driven through random operation sequences (new with k sets, then add_data ...): cost entries / length vs est_cost_st (est_run (est_new ..) ..), MARD vs mard",
                                       "tcorr": "PcSaft *_correlation vs visc_corr/diff_corr/tc_corr",
                                       "tref": "PcSaft *_reference (SI) vs visc_ref/diff_ref/tc_ref",
-                                      "tstate": "State value vs entropy_scaling reference ln_reduced; SAFT-VRQ Mie viscosity_correlation"},
+                                      "tstate": "State value vs entropy_scaling reference ln_reduced; SAFT-VRQ Mie correlations / diffusion / thermal conductivity references",
+                                      "tvrq": "SaftVRQMie::viscosity_reference of 1-3 component mixtures vs visc_ref with sigma_eff/epsilon_k_eff"},
         "tolerances": {"loss": "1e-12*|v| (+2e-15*s^2/|v| for SoftL1/Cauchy: cancellation of sqrt(1+z)-1, ln(1+z)); |r|/|s| in [1e-3,1e3]",
                        "estimator": "1e-9*|v| per cost entry, 1e-12*|v| MARD", "correlations": "1e-12 * sum of |terms| bound",
                        "references": "1e-11 relative (thermal conductivity 1e-10 + 1e-12)", "state": "1e-12 relative",
-                       "predict_vs_direct": "1e-12 relative", "model_generated_zero": "1e-13 absolute (unit round trip)",
+                       "predict_vs_direct": "1e-12 relative (extrapolated vapor pressure above T_c: 1e-8)", "model_generated_zero": "1e-13 absolute (unit round trip)",
                        "binary_vle": "1e-9; BinaryPhaseDiagram 5e-3 (piecewise-linear diagram)"},
         "exact_cases": counts,
         "linear_negative_observed_signed": lin_neg_seen,
